@@ -3,12 +3,17 @@ import Ark.Model.DrvC01
 import Ark.Model.DrvC17
 import Ark.Model.DrvC03
 import Ark.Model.DrvC20
+import Ark.Model.DrvC02
+import Ark.Model.DrvC19
+import Ark.Model.DrvC07
 /-  arkdrv: one op per line on stdin: `<prop> <op> args… => <impl output>` → one line `model|verdict` -/
 open Ark
 
 structure DrvState where
   c01 : DrvC01.Cache := {}
   c20 : DrvC20.Cache := {}
+  c02 : DrvC02.Cache := {}
+  c07 : DrvC07.Cache := {}
 
 def dispatch (st : DrvState) (line : String) : DrvState × String :=
   let (inp, impl) := match line.trimAscii.toString.splitOn " => " with
@@ -19,6 +24,18 @@ def dispatch (st : DrvState) (line : String) : DrvState × String :=
   | "C15" :: op :: args =>
     match DrvC15.run op args impl with
     | some (m, s) => (st, m ++ "|" ++ s)
+    | none => (st, "bad-op")
+  | "C19" :: op :: args =>
+    match DrvC19.run op args impl with
+    | some (m, s) => (st, m ++ "|" ++ s)
+    | none => (st, "bad-op")
+  | "C07" :: op :: args =>
+    match DrvC07.run st.c07 op args impl with
+    | some (c, m, s) => ({ st with c07 := c }, m ++ "|" ++ s)
+    | none => (st, "bad-op")
+  | "C02" :: op :: args =>
+    match DrvC02.run st.c02 op args impl with
+    | some (c, m, s) => ({ st with c02 := c }, m ++ "|" ++ s)
     | none => (st, "bad-op")
   | "C20" :: op :: args =>
     match DrvC20.run' st.c20 op args impl with
